@@ -1,5 +1,6 @@
 import Exetera.Lemmas.ExportApi
 import Exetera.Lemmas.CsvParse
+import Exetera.Lemmas.ExportPandas
 /-!
   C18 — CSV / pandas export writes exactly the selected rows and columns.
 
@@ -134,5 +135,35 @@ theorem asRead_exetera_of_no_leading_blank (c : Export.Cell) (h : c.head? ≠ so
 
 example : parse .exetera (render [[['s'], ['n']], [[' ', 'x'], ['1']], [[' ', 'y', ','], ['2']], [['a', '\r', 'b'], ['3']]])
     = [[['s'], ['n']], [['x'], ['1']], [[' ', 'y', ','], ['2']], [['a', '\r', 'b'], ['3']]] := by decide
+
+/-- **to_pandas_eq**: for a valid, non-empty column selection whose columns all have `N` rows and a row filter that is absent or a
+    boolean list / array of length `N`, `to_pandas` ends normally; its columns are the distinct selected names in order of first
+    occurrence, and each column is `[x_i | i < N, filter i]` of the frame's column of that name.
+    (A Field as filter, or a filter of another length, is refused by numpy: finding NC18b, `Witness.C18`.) -/
+theorem to_pandas_eq (f : Frame) (rf : PdFilter) (cf : ColFilter) (sel : List Export.Cell) (flt : Option (List Bool)) (N : Nat)
+    (hsel : Selects f cf sel) (hne : sel ≠ []) (hlen : ∀ c ∈ f, c.name ∈ sel → c.data.length = N)
+    (hflt : PdFilterOk N rf flt) :
+    ∃ cols, toPandas f rf cf = .ok cols ∧ cols.map (·.1) = firstOccurrences [] sel ∧
+      ∀ p ∈ cols, ∃ c ∈ f, c.name = p.1 ∧ p.2 = filterCol c.data flt := by
+  have hall : AllLen f N sel := by
+    intro n hn
+    obtain ⟨c, h1, h2, h3⟩ := get?_of_mem_keys f n (hsel.subset n hn)
+    exact ⟨c, h1, h3, h2, hlen c h3 (by rw [h2]; exact hn)⟩
+  obtain ⟨out, h1, h2, h3⟩ := pdCollect_ok f rf flt N hflt sel [] hall (by simp)
+  refine ⟨out, ?_, by simpa using h2, h3⟩
+  have hcheck : pdCheck f sel = .ok () := by
+    cases hs : sel with
+    | nil => exact absurd hs hne
+    | cons n0 ns =>
+      obtain ⟨c0, hc0, _, _, hl0⟩ := hall n0 (by simp [hs])
+      simp only [pdCheck, List.getElem?_cons_zero, Frame.getE, hc0, hl0]
+      exact pdCheckLengths_ok f N _ (hs ▸ hall)
+  cases hsel with
+  | none => simp only [toPandas, hcheck, h1]
+  | one n hn => simp only [toPandas, h1]
+  | many _ _ => simp only [toPandas, hcheck, h1]
+
+example : toPandas [⟨['s'], [['a'], ['b'], ['c']]⟩, ⟨['n'], [['1'], ['2'], ['3']]⟩] (.list [true, false, true])
+    (.many [['n'], ['s'], ['n']]) = .ok [(['n'], [['1'], ['3']]), (['s'], [['a'], ['c']])] := by decide
 
 end Exetera.Props.C18
